@@ -1,7 +1,7 @@
 (* C07 T-tie: the definitions generated from the current jumptable_utils.py (GenJumptable.v) are equal to
    the hand model (Jumptable.v) the theorems are stated about.  Re-checked on every run. *)
 From Coq Require Import ZArith List Bool Lia.
-From Verif Require Import C07.Jumptable C07.JumptableProofs C07.GenSupport C07.GenJumptable.
+From Verif Require Import C07.Jumptable C07.JumptableProofs C07.JtSupport C07.GenJumptable.
 Import ListNotations.
 Open Scope Z_scope.
 
